@@ -245,6 +245,74 @@ pub fn check_seq(c: &Seq) -> Outcome {
     pass_n(errors > 0 && c.steps.len() >= 2, vec![if errors > 0 { "sequence-with-an-error-step" } else { "sequence-all-values" }])
 }
 
+/// an unparenthesised chain `a op b op c op d ...` over one operand type: evaluated from the left, every partial result
+/// exact or the whole chain an overflow / zero-divisor error at the first step that leaves the range
+#[derive(Clone, Debug, Serialize, Deserialize)]
+pub struct Chain {
+    pub first: Opnd,
+    pub rest: Vec<(char, Opnd)>,
+    /// 0: literals, 1: variables
+    pub form: u8,
+}
+
+pub fn check_chain(c: &Chain) -> Outcome {
+    // `*` `/` `%` bind tighter than `+` `-`: fold the multiplicative runs first, exactly as the grammar groups them
+    let mut terms: Vec<(char, Result<Opnd, Exp>)> = vec![('+', Ok(c.first.clone()))];
+    for (op, b) in &c.rest {
+        if matches!(op, '*' | '/' | '%') {
+            let (sign, last) = terms.pop().unwrap();
+            let next = match last {
+                Ok(a) => match expected(&a, b, *op) {
+                    Exp::Val(V::Int(i)) => Ok(Opnd::I(i)),
+                    Exp::Val(V::UInt(u)) => Ok(Opnd::U(u)),
+                    e => Err(e),
+                },
+                Err(e) => Err(e),
+            };
+            terms.push((sign, next));
+        } else {
+            terms.push((*op, Ok(b.clone())));
+        }
+    }
+    // then the additive chain from the left; the first failing step (in evaluation order) decides
+    let mut exp: Result<Opnd, Exp> = terms[0].1.clone();
+    for (op, t) in terms.iter().skip(1) {
+        exp = match (exp, t) {
+            (Err(e), _) => Err(e),
+            (Ok(_), Err(e)) => Err(e.clone()),
+            (Ok(a), Ok(b)) => match expected(&a, b, *op) {
+                Exp::Val(V::Int(i)) => Ok(Opnd::I(i)),
+                Exp::Val(V::UInt(u)) => Ok(Opnd::U(u)),
+                e => Err(e),
+            },
+        };
+    }
+    let exp = match exp {
+        Ok(o) => Exp::Val(o.v()),
+        // which of several failing steps is reported is the evaluation order's business (C07); here: an error
+        Err(_) => Exp::AnyError,
+    };
+    let mut vars = vec![];
+    let mut src = String::new();
+    let mut put = |k: usize, o: &Opnd, src: &mut String| {
+        if c.form == 0 {
+            src.push_str(&bare(&o.v()));
+        } else {
+            src.push_str(&format!("x{k}"));
+            vars.push((format!("x{k}"), o.v()));
+        }
+    };
+    put(0, &c.first, &mut src);
+    for (k, (op, b)) in c.rest.iter().enumerate() {
+        src.push_str(&format!(" {op} "));
+        put(k + 1, b, &mut src);
+    }
+    match sut::run_src(&src, &vars) {
+        Ran::Done(got) if matches(&exp, &got) => pass_n(c.rest.len() >= 3, vec![if matches!(exp, Exp::AnyError) { "chain-error" } else { "chain-value" }, if c.rest.len() >= 3 { "chain-of-4-or-more" } else { "chain-of-3" }]),
+        other => fail(format!("`{src}` vars={vars:?}: evaluated from the left (multiplicative runs first) the chain gives {exp:?}, observed {}", other.show())),
+    }
+}
+
 /// operands *written* just outside the 64-bit range: the program may be rejected, or fail, or give the exact result of the
 /// numbers written - but never a wrapped one
 #[derive(Clone, Debug, Serialize, Deserialize)]
@@ -314,7 +382,7 @@ fn gen_opnd(u: &mut Chooser, ty: usize) -> Opnd {
 
 pub fn run(r: &mut Runner) {
     r.rule = "cases: (a, b, operator, spelling) over i64/u64 boundary sets (exhaustive) and random uniform / log-uniform / near-boundary operands, \
-              spelled as literals, bare signed literals and context variables; unary minus over the i64 set; int/uint/double mixtures; sequences of operations on one thread (remainder, quotient, remainder ... over the same operands); operands written just beyond the range. \
+              spelled as literals, bare signed literals and context variables; unary minus over the i64 set; int/uint/double mixtures; unparenthesised chains of 3-7 operands evaluated from the left; sequences of operations on one thread (remainder, quotient, remainder ... over the same operands); operands written just beyond the range. \
               Oracle: i128 arithmetic + range test; overflow and zero-divisor errors recognised by message. Non-trivial: the exact result overflows or lies \
               within 2^10 of a type boundary, the divisor is 0 or ±1, signs are mixed under / or %, or operand types are mixed; distinct by (a, b, op, spelling)."
         .into();
@@ -452,6 +520,28 @@ pub fn run(r: &mut Runner) {
             Seq { steps }
         },
         check_seq,
+    );
+    r.random(
+        "operator-chains",
+        40,
+        n / 4,
+        |u| {
+            let ty = u.below(2);
+            // operands near the edges so that regrouping changes which partial result leaves the range
+            let small = |u: &mut Chooser| if ty == 0 { Opnd::I(u.range(-10, 10) as i64) } else { Opnd::U(u.below(10) as u64) };
+            let edge = |u: &mut Chooser| if ty == 0 { Opnd::I(*u.pick(&[i64::MAX, i64::MIN, i64::MAX - 5, i64::MIN + 5, i64::MAX / 2 + 1, i64::MIN / 2 - 1])) } else { Opnd::U(*u.pick(&[u64::MAX, u64::MAX - 5, 1 << 63, (1 << 63) - 1])) };
+            let opnd = |u: &mut Chooser| match u.below(4) {
+                0 => edge(u),
+                1 => gen_opnd(u, ty),
+                _ => small(u),
+            };
+            let first = opnd(u);
+            let len = 2 + u.below(5);
+            let additive_only = u.flip();
+            let rest = (0..len).map(|_| (if additive_only { *u.pick(&['+', '+', '-']) } else { *u.pick(&['+', '-', '*', '+', '/', '%']) }, opnd(u))).collect();
+            Chain { first, rest, form: u.below(2) as u8 }
+        },
+        check_chain,
     );
     r.random(
         "random-pairs",
